@@ -52,7 +52,9 @@ template <class TM, class SM> struct Harness {
   }
   Eigen::VectorXd to_phys(const Eigen::VectorXd &xi, int i) const { if constexpr (std::is_same<SM, IdentitySpatialMap<D>>::value) return xi; else return usm.toPhysical(xi, i); }
   double to_time(double tau) const { if constexpr (std::is_same<TM, VTimeMap>::value) return utm.toTime(tau); else return TM().toTime(tau); }
-  Eigen::VectorXd perturbed_guess() { Eigen::VectorXd x = opt.generateInitialGuess(); for (int i = 0; i < x.size(); ++i) x(i) += (((i * 7) % 11) - 5) / 32.0; return x; }
+  Eigen::VectorXd perturbed_guess() { Eigen::VectorXd x = opt.generateInitialGuess(); for (int i = 0; i < x.size(); ++i) x(i) += (((i * 7) % 11) - 5) / 32.0;
+    if (cfg.ms1 && cfg.tm == 1) x(0) = 0.0009765625 * 0.75;   // identity time map: T_0 = 0.73 ms, below the limit but positive
+    return x; }
   double eval(const Eigen::VectorXd &x, Eigen::VectorXd &g, WS *ws) { return opt.evaluate(x, g, tc, wc, rc, ws); }
 
   // model decode of a decision vector
@@ -365,6 +367,9 @@ int main(int argc, char **argv) {
     //     quadrature on one small problem (a weight or step that is wrong for one particular K)
     for (int N : {8, 9, 15, 16, 17, 32, 33}) for (unsigned m : {0u, 255u}) { if (!th && (N == 9 || N == 15)) continue; Cfg g; g.mask = m; g.N = N; g.fmode = 8; g.rho = 0.25; g.K = 3; unit_do(g); }
     for (int K = 1; K <= 70; ++K) { Cfg g; g.mask = 0x5a; g.N = 2; g.fmode = 8; g.rho = 0.25; g.K = K; unit_do(g); }
+    // a reference duration of exactly 1 ms (the acceptance limit): the perturbed vector then decodes to a duration BELOW it, which evaluate() must
+    // honour in the cost and in the gradient alike (seeded changes C19-m10 / C07-m11: durations clamped from below in the decode only)
+    for (int N : {1, 2}) for (unsigned m : {0u, 255u}) for (int tm : {0, 1}) { Cfg g; g.mask = m; g.N = N; g.tm = tm; g.fmode = 8; g.rho = 0.0; g.K = 3; g.ms1 = true; unit_do(g); }
     // (c) thorough: full product of the configuration axes for N <= 3, DIM <= 2
     if (th && D <= 3) for (int N = 1; N <= 3; ++N) for (unsigned m = 0; m < 256; ++m) for (int tm = 0; tm < 3; ++tm) for (int sm = 0; sm < 4; ++sm) for (int f : {8, 9, 10}) for (double rho : {0.0, 0.25}) for (int K : {1, 3}) { Cfg g; g.mask = m; g.N = N; g.tm = tm; g.sm = sm; g.fmode = f; g.rho = rho; g.K = K; unit_do(g); }
   });
